@@ -31,7 +31,7 @@
 //
 // Documentation-silent classes (SILENT): ASCII white space inside the string; white space next to a removed
 // unicode space; colon and d ' " indicators mixed in one piece; a number ending in '.' ("4."); nan/inf look-alikes
-// other than R11 (e.g. "1.#INF", "inf+1", "nan0"); an ignored space between the two quotes of a '' pair; runs of
+// other than R11 (e.g. "1.#INF", "inf+1", "nan0"); numerals above DBL_MAX; an ignored space between the two quotes of a '' pair; runs of
 // three or more minute symbols whose pairing changes the verdict.  Lower-case n s e w are treated like the
 // upper-case letters (Utility::lookup documents the case folding; DMS.hpp lists "d, D") and the result is tagged
 // lowercase_hemi so that a harness can report the assumption.
@@ -207,6 +207,7 @@ inline Body body(const std::string& s) {
     if (!any) return {REJECT, 0, "no components"};
   }
   if (silent_tp) return {SILENT, 0, "number ends in a decimal point"};
+  for (int k = 0; k < 3; ++k) if (comp[k] > 1.7976931348623157e308L) return {SILENT, 0, "number overflows double"};
   return {ACCEPT, comp[0] + comp[1] / 60.0L + comp[2] / 3600.0L, "", idig};
 }
 
